@@ -237,7 +237,7 @@ Qed.
 
 Lemma bound_at_length b o md tg : wf_bspec b -> length (bound_at b o md tg) = length tg.
 Proof.
-  intros W. destruct b as [|x|ts vals]; cbn; rewrite ?map_length; auto.
+  intros W. destruct b as [|x|ts vals|vals]; cbn; rewrite ?map_length, ?seq_length; auto.
   destruct (interp_array md ts vals (Some o) (Some o) tg) as [l|] eqn:E; [|now rewrite map_length].
   unfold interp_array in E. destruct (list_eqb tg ts) eqn:El.
   - injection E as <-. rewrite map_length. cbn in W. rewrite W. symmetry. now apply list_eqb_length.
